@@ -12,6 +12,7 @@ import (
 	"compress/gzip"
 	"encoding/binary"
 	"fmt"
+	"hash/crc32"
 	"time"
 
 	"github.com/xelaj/mtproto/zverif/ref/mtp1"
@@ -377,11 +378,39 @@ func Payload(tag int32, kind Kind) []byte {
 	return w.B
 }
 
-func Gzip(b []byte) []byte {
+// Gzip packs b as gzip_packed. RFC 1952 leaves the packer free in how it produces the stream; which of three
+// legal forms is used is a fixed function of the content (so that every run sees the same bytes and all forms
+// occur across the payloads of a check): written in one piece; written in pieces with a sync flush behind each
+// (a streaming packer); two gzip members one after the other.
+func Gzip(b []byte) []byte { return GzipForm(b, (len(b)/4+int(crc32.ChecksumIEEE(b)))%3) }
+
+// GzipForm: form 0 = one piece, 1 = flushed pieces, 2 = two members.
+func GzipForm(b []byte, form int) []byte {
 	var buf bytes.Buffer
-	zw, _ := gzip.NewWriterLevel(&buf, gzip.BestSpeed)
-	_, _ = zw.Write(b)
-	_ = zw.Close()
+	pack := func(p []byte, piece int) {
+		zw, _ := gzip.NewWriterLevel(&buf, gzip.BestSpeed)
+		for len(p) > 0 {
+			n := len(p)
+			if piece > 0 && n > piece {
+				n = piece
+			}
+			_, _ = zw.Write(p[:n])
+			p = p[n:]
+			if piece > 0 {
+				_ = zw.Flush()
+			}
+		}
+		_ = zw.Close()
+	}
+	switch form {
+	case 1:
+		pack(b, max(1, min(1000, len(b)/3)))
+	case 2:
+		pack(b[:len(b)/2], 0)
+		pack(b[len(b)/2:], 0)
+	default:
+		pack(b, 0)
+	}
 	w := &tlw.W{}
 	w.U32(idGzipPacked).Str(buf.Bytes())
 	return w.B
